@@ -227,11 +227,17 @@ def run_history(hist, paste_threshold=8, final_drain=True, pre=None, nostart=Fal
         inp = cinput.Input(in_stream=stream, keynames="bytes", paste_threshold=paste_threshold, sigint_event=True,
                            disable_terminal_start_stop=bool(nostart))
         inp.__enter__()
+        paused, ts_wfd = [], None
         try:
             trig = inp.event_trigger(Ev)
             sched = inp.scheduled_event_trigger(SEv)
             ts = inp.threadsafe_event_trigger(Ev)
-            ts_wfd = closure_int(ts)
+            try:
+                ts_wfd = closure_int(ts)
+            except RuntimeError:
+                # the callback holds no descriptor at all: it cannot wake a blocked request; the history goes on and is
+                # judged on what the requests return
+                ts_wfd = None
 
             # Thread-safe callbacks run in real helper threads executing the real callback; the thread is paused
             # (strict handshake, so still deterministic) right before each operation on shared state - the
@@ -309,7 +315,7 @@ def run_history(hist, paste_threshold=8, final_drain=True, pre=None, nostart=Fal
                     # stray wake-up byte (e.g. the late half of a callback whose event was already consumed)
                     if paused:
                         step_callback(paused[0])
-                    else:
+                    elif ts_wfd is not None:
                         os.write(ts_wfd, b"interrupting event!")
                         rec.append({"k": "tswrite", "id": 0})
                 elif k == "tscall":
@@ -418,7 +424,8 @@ def run_history(hist, paste_threshold=8, final_drain=True, pre=None, nostart=Fal
                 except OSError:
                     pass
             try:
-                os.close(ts_wfd)
+                if ts_wfd is not None:
+                    os.close(ts_wfd)
             except Exception:  # noqa
                 pass
     finally:
